@@ -289,11 +289,15 @@ def scenario_concurrent(s, seed, nthreads, ncalls):
     rp = cl.get_rpc_object_by_name("srv.echo")
     bad = []
     plan = [(t, rng.choice(["local", "remote"]), [rng.choice(["ret", "raise", "nb"]) for _ in range(ncalls)]) for t in range(nthreads)]
+    # payload sizes: requests and replies that do not fit one recv() of the connection (4096 bytes today), pipelined with
+    # small ones, and occasionally a request above 1 MB
+    sizes = [[rng.choice([0, 0, 700, 3000, 5000, 9000] + ([1200000] if rng.random() < 0.15 else [])) for _ in range(ncalls)]
+             for _ in range(nthreads)]
 
     def worker(t, place, kinds):
         proxy = lp if place == "local" else rp
         for i, k in enumerate(kinds):
-            tag = ("T%d" % t, i, place)
+            tag = ("T%d" % t, i, place, bytes([65 + t]) * sizes[t][i])
             try:
                 if k == "ret":
                     got = ("value", proxy.ret(tag))
